@@ -57,7 +57,8 @@ def _cases(tier):
     for n in range(1, (3 if tier == 'quick' else 4) + 1):
         for seq in itertools.product('ARN', repeat=n):
             for pre in ('exists_overwrite', 'exists_keep'):
-                out.append({'answers': ''.join(seq), 'out': outs[k % 2], 'data': 'same', 'pre': pre, 'kw': False}); k += 1
+                for o in outs:
+                    out.append({'answers': ''.join(seq), 'out': o, 'data': ('same', 'float', 'short')[k % 3], 'pre': pre, 'kw': False}); k += 1
     return out
 
 
